@@ -165,6 +165,7 @@ pub struct Report {
     pub id: &'static str,
     pub level: &'static str,
     pub opts: Opts,
+    worker: bool,
     start: Instant,
     rule: Mutex<String>,
     assumptions: Mutex<Vec<String>>,
@@ -182,6 +183,7 @@ impl Report {
             id,
             level,
             opts,
+            worker: std::env::var("VC_WORKER").is_ok(),
             start: Instant::now(),
             rule: Mutex::new(String::new()),
             assumptions: Mutex::new(Vec::new()),
@@ -308,6 +310,20 @@ impl Report {
     /// Report a violation. `signature` is a stable, narrow classification of *what* failed (used
     /// to match known findings); `case` is the replayable description.
     pub fn violation(&self, signature: &str, case: Value, message: &str) {
+        if self.worker {
+            let mut inner = self.inner.lock().unwrap();
+            inner.violations += 1;
+            let first_of_sig = inner.violation_sigs.insert(signature.to_string());
+            if !first_of_sig && inner.violations > 60 {
+                return;
+            }
+            drop(inner);
+            println!(
+                "{}",
+                json!({"t": "violation", "sig": signature, "case": case, "msg": message})
+            );
+            return;
+        }
         if let Some(k) = self
             .known
             .iter()
@@ -353,8 +369,77 @@ impl Report {
         println!("  message: {}", truncate(message, 600));
     }
 
+    /// Absorbs the JSON lines a worker subprocess printed (see `finish` in worker mode).
+    pub fn absorb_worker_output(&self, stdout: &str) -> bool {
+        let mut saw_summary = false;
+        for line in stdout.lines() {
+            let Ok(v) = serde_json::from_str::<Value>(line) else {
+                continue;
+            };
+            match v.get("t").and_then(|t| t.as_str()) {
+                Some("violation") => {
+                    self.violation(
+                        v["sig"].as_str().unwrap_or("?"),
+                        v["case"].clone(),
+                        v["msg"].as_str().unwrap_or(""),
+                    );
+                }
+                Some("summary") => {
+                    saw_summary = true;
+                    let mut inner = self.inner.lock().unwrap();
+                    inner.evaluations += v["evaluations"].as_u64().unwrap_or(0);
+                    for h in v["distinct"].as_array().cloned().unwrap_or_default() {
+                        if let Some(h) = h.as_u64() {
+                            inner.distinct.insert(h);
+                        }
+                    }
+                    if let Some(c) = v["counters"].as_object() {
+                        for (k, n) in c {
+                            *inner.counters.entry(k.clone()).or_insert(0) += n.as_u64().unwrap_or(0);
+                        }
+                    }
+                    for smp in v["samples"].as_array().cloned().unwrap_or_default() {
+                        if inner.samples.len() < 6 {
+                            inner.samples.push(smp);
+                        }
+                    }
+                    for i in v["infos"].as_array().cloned().unwrap_or_default() {
+                        if inner.infos.len() < 50 {
+                            inner.infos.push(i.as_str().unwrap_or("").to_string());
+                        }
+                    }
+                    if v["exhaustive"].as_bool() == Some(false) {
+                        inner.exhaustive = false;
+                    }
+                    inner.states += v["states"].as_u64().unwrap_or(0);
+                    inner.transitions += v["transitions"].as_u64().unwrap_or(0);
+                }
+                _ => {}
+            }
+        }
+        saw_summary
+    }
+
     /// Writes the evidence file and returns the exit code.
     pub fn finish(&self) -> i32 {
+        if self.worker {
+            let inner = self.inner.lock().unwrap();
+            println!(
+                "{}",
+                json!({
+                    "t": "summary",
+                    "evaluations": inner.evaluations,
+                    "distinct": inner.distinct.iter().collect::<Vec<_>>(),
+                    "counters": inner.counters,
+                    "samples": inner.samples,
+                    "infos": inner.infos,
+                    "exhaustive": inner.exhaustive,
+                    "states": inner.states,
+                    "transitions": inner.transitions,
+                })
+            );
+            return 0;
+        }
         let inner = self.inner.lock().unwrap();
         let wall = self.start.elapsed().as_secs_f64();
         let mut coverage = Map::new();
@@ -528,4 +613,47 @@ pub fn tree_snapshot(root: &Path) -> BTreeMap<String, Option<Vec<u8>>> {
     let mut out = BTreeMap::new();
     walk(root, root, &mut out);
     out
+}
+
+/// Runs `vc <args>` worker subprocesses (VC_WORKER=1) in parallel and folds their output into
+/// `report`. A worker that dies without a summary line is a machinery failure.
+pub fn run_workers(report: &Report, jobs: Vec<Vec<String>>, parallelism: usize, envs: &[(String, String)]) {
+    use std::process::{Command, Stdio};
+    let exe = std::env::current_exe().expect("current exe");
+    let queue = Mutex::new(jobs.into_iter().collect::<std::collections::VecDeque<_>>());
+    std::thread::scope(|scope| {
+        for _ in 0..parallelism.max(1) {
+            scope.spawn(|| loop {
+                let job = { queue.lock().unwrap().pop_front() };
+                let Some(job) = job else {
+                    break;
+                };
+                let mut cmd = Command::new(&exe);
+                cmd.args(&job)
+                    .env("VC_WORKER", "1")
+                    .env("VERIF_TIER", report.opts.tier.as_str())
+                    .env("VERIF_SEED", report.opts.seed.to_string())
+                    .stdin(Stdio::null())
+                    .stdout(Stdio::piped())
+                    .stderr(Stdio::piped());
+                for (k, v) in envs {
+                    cmd.env(k, v);
+                }
+                let out = match cmd.output() {
+                    Ok(out) => out,
+                    Err(e) => machinery_failure(&format!("spawn worker {job:?}: {e}")),
+                };
+                let stdout = String::from_utf8_lossy(&out.stdout).to_string();
+                let ok = report.absorb_worker_output(&stdout);
+                if !ok {
+                    let stderr = String::from_utf8_lossy(&out.stderr);
+                    machinery_failure(&format!(
+                        "worker {job:?} ended without a summary (status {:?}); stderr tail: {}",
+                        out.status,
+                        stderr.chars().rev().take(1500).collect::<Vec<_>>().into_iter().rev().collect::<String>()
+                    ));
+                }
+            });
+        }
+    });
 }
